@@ -108,3 +108,13 @@ func SortedKeysFunc[M ~map[K]V, K comparable, V any](m M, less func(a, b K) bool
 	sort.Slice(ks, func(i, j int) bool { return less(ks[i], ks[j]) })
 	return ks
 }
+
+// TaskKey returns the key of the calling task ("" outside a simulation). Child
+// tasks carry their parent's key as a prefix.
+func TaskKey() string {
+	s := cur.Load()
+	if s == nil {
+		return ""
+	}
+	return s.current().Key
+}
